@@ -10,7 +10,7 @@ static Alphabet token_alphabet() {
     Alphabet a;
     const char *toks[] = {"{var:", "{raw:", "{math:", "{svar:", "{if", "}", "<loop", "</loop>", "<if", "</if>", "<else", "<elseif", " if", ">", "/>",
                           " case=", " true=", " false=", " set=", " value=", " group=", " sort=", "\"", "'", "a", "b", "v", "x]", "0", "1", "[", "]",
-                          ",", " ", "+", "-", "%", "/", "^", "==", "!=", "&&", "|", "(", ")", "ascend"};
+                          ",", " ", "+", "-", "%", "/", "^", "==", "!=", "&&", "|", "(", ")", "ascend", "0.5", "h"};
     for (auto t : toks) {
         a.tokens.push_back(T(t));
     }
@@ -114,7 +114,7 @@ int main(int argc, char **argv) {
             bases = gen.out;
         }
         plan.rule += " || W_k/Dev_d: all " + std::to_string(bases.size()) + " well-formed templates with <=" + std::to_string(gk) +
-                     " nodes over 12 leaf tags (var/raw/math incl. %0 and INT64_MIN%-1/svar/inline-if) and 8 containers (if/else/else-if/elseif, "
+                     " nodes over 14 leaf tags (var/raw/math incl. %0 and INT64_MIN%-1/svar/inline-if) and 8 containers (if/else/else-if/elseif, "
                      "loop with set/sort/group/nested set), nesting <=4; each with every code-unit cut and every deviation of distance <=" +
                      std::to_string(gd) + " (delete a token, insert one of " + std::to_string(G.insertable.size()) +
                      " tokens anywhere, swap neighbours, replace a closer)";
